@@ -769,6 +769,21 @@ func drawHostCase(rt *rapid.T, depth int) HostCase {
 		}
 		c.Args = append(c.Args, hs.WV{V: v})
 	}
+	// sometimes an `any` parameter stands in front of the typed ones: every value fits it, and the typed
+	// parameters behind it must still be checked against their own arguments
+	if ch.Pick(3, "anyParam") == 0 {
+		av := vg.conforming(tg.typ(1))
+		pos := ch.Pick(len(c.Params), "anyParamPos") // never the last position
+		c.Params = append(c.Params[:pos], append([]hs.Type{hs.TAny}, c.Params[pos:]...)...)
+		c.Args = append(c.Args[:pos], append([]hs.WV{{V: av}}, c.Args[pos:]...)...)
+		if c.RetIdx >= pos {
+			c.RetIdx++
+		}
+		if c.Bad >= pos {
+			c.Bad++
+		}
+		pk.Class("host:any-parameter")
+	}
 	c.Ret = c.Params[c.RetIdx]
 	c.Mode = "arg"
 	c.Async = ch.Pick(3, "async") == 2
